@@ -95,7 +95,7 @@ func genRewriteCell(t *rapid.T, label string, cfg MyCfgCol) MyCell {
 			return MyCell{B: textBlob(txt), Prot: envelope}
 		}
 		// stored value that is not a protected integer: bytes that neither decrypt nor parse
-		return MyCell{B: Blob{N: rapid.SampledFrom([]int{1, 8, 250, 251, 300}).Draw(t, label+".glen"), Pat: []byte{0xfe, 0x01, 0x7f}}}
+		return MyCell{B: Blob{N: rapid.SampledFrom([]int{1, 3, 250, 251, 300}).Draw(t, label+".glen"), Pat: []byte{0xfe, 0x01, 0x7f}}}
 	}
 	n := rapid.SampledFrom([]int{1, 5, 40, 100, 249, 250, 251, 252, 400, 65535, 65536}).Draw(t, label+".n")
 	if protected {
@@ -681,5 +681,65 @@ func TestMySQLRewrite(t *testing.T) {
 		vs, classes, nt := CheckMy(c)
 		R.Seen("TestMySQLRewrite", c, nt, classes...)
 		report(rt, "TestMySQLRewrite", c, vs)
+	})
+}
+
+// ---------------------------------------------------------------------------------------------
+// back-to-back commands: the response handler must belong to the command it was set for
+
+// BackToBackCase is a number of identical SELECTs sent one right after the other's response.
+type BackToBackCase struct {
+	N          int  `json:"n"`
+	Prepared   bool `json:"prepared"`
+	DeprecEOF  bool `json:"deprecate_eof"`
+	PlainBytes int  `json:"plain_bytes"`
+}
+
+const sigHandlerRace = "response-not-processed:back-to-back-commands"
+
+// CheckBackToBack plays N queries whose single row holds a protected value and counts the rows that arrived undecrypted.
+func CheckBackToBack(c BackToBackCase) hx.Vs {
+	var vs hx.Vs
+	mc := MyCase{Auth: MyAuth{Kind: "ok", User: "app", DB: "db1"}, ServerCaps: optionalCaps | mysess.CapProtocol41, ClientCaps: mysess.DefaultCaps,
+		Schema: []MyCfgCol{{Role: "plain"}, {Role: "enc"}}}
+	if c.DeprecEOF {
+		mc.ClientCaps |= mysess.CapDeprecateEOF
+	}
+	cols := tableCols(mc.Schema)
+	set := MySet{Cols: cols, End: MyOK{Status: mysess.StatusAutocommit}}
+	id := MyCell{B: textBlob("1")}
+	if c.Prepared {
+		id = MyCell{B: Blob{N: 4, Pat: []byte{1, 0, 0, 0}}}
+	}
+	set.Rows = [][]MyCell{{id, {B: textBlob("x")}, {B: Blob{N: c.PlainBytes}, Prot: "acrablock"}}}
+	if c.Prepared {
+		mc.Ops = append(mc.Ops, MyOp{Kind: "prepare", SQL: "SELECT * FROM t", Resp: MyResp{Kind: "prepok", Cols: cols}})
+	}
+	for i := 0; i < c.N; i++ {
+		if c.Prepared {
+			mc.Ops = append(mc.Ops, MyOp{Kind: "execute", Stmt: 0, NewParams: true, Resp: MyResp{Kind: "sets", Sets: []MySet{set}}})
+		} else {
+			mc.Ops = append(mc.Ops, MyOp{Kind: "query", SQL: "SELECT * FROM t", Resp: MyResp{Kind: "sets", Sets: []MySet{set}}})
+		}
+	}
+	once, _, _ := checkMyOnce(mc)
+	for _, v := range once {
+		if strings.HasPrefix(v.Sig, "transformed-field-wrong:") {
+			vs.Add(sigHandlerRace, "one of %d identical back-to-back statements came back unprocessed: %s", c.N, v.Msg)
+		} else {
+			vs = append(vs, v)
+		}
+	}
+	return vs
+}
+
+func TestMySQLBackToBack(t *testing.T) {
+	R.Rule("TestMySQLBackToBack", "one session, 100-300 identical SELECTs (text, or one prepared statement executed repeatedly) each answered with one row holding a protected value, every command sent as soon as the previous response is complete; every row must arrive decrypted (the response handler chosen for a command must not be overwritten by the tail of the previous response). The failure this looks for is a race: a violation is certain to be genuine, absence of one in a single run is weak evidence. Non-trivial: every case")
+	hx.Checks(8, 30)
+	rapid.Check(t, func(rt *rapid.T) {
+		c := BackToBackCase{N: rapid.IntRange(100, 300).Draw(rt, "n"), Prepared: rapid.Bool().Draw(rt, "prepared"), DeprecEOF: rapid.Bool().Draw(rt, "eof"), PlainBytes: rapid.SampledFrom([]int{1, 20, 300}).Draw(rt, "len")}
+		vs := CheckBackToBack(c)
+		R.Seen("TestMySQLBackToBack", c, true, fmt.Sprintf("prepared=%v", c.Prepared), fmt.Sprintf("deprecate-eof=%v", c.DeprecEOF))
+		report(rt, "TestMySQLBackToBack", c, vs)
 	})
 }
